@@ -266,6 +266,13 @@ def run(rep):
                     ex = explore(hist_harness(L, sw, ch, 10, K, overlap, limit, cls))
                     rep.add_exploration(hn, ex)
                     tok.handle_cex(rep, hn, ex, replay_fn, ideal=True)
+    # multichannel / wider samples: the replayed blocks must have the frame size of the source
+    for (sw, ch) in ((2, 2), (1, 3)) if tier == "quick" else ((2, 2), (1, 3), (4, 2)):
+        for overlap in (False, True):
+            hn = "history[sw=%d,ch=%d,K=%d,%srecord=True]" % (sw, ch, min(K, 4), "overlap," if overlap else "")
+            ex = explore(hist_harness(L, sw, ch, 10, min(K, 4), overlap, False, False))
+            rep.add_exploration(hn, ex)
+            tok.handle_cex(rep, hn, ex, replay_fn, ideal=True)
     for overlap in (False, True):
         hn = "history[advanced source,K=%d,%s]" % (min(K, 4), "overlap" if overlap else "")
         ex = explore(hist_harness(L, 2, 1, 10, min(K, 4), overlap, False, False, advanced=True))
